@@ -30,7 +30,7 @@ PROPS["C17"] = {
         ("contracts.code311", "xdis.codetype.code311:parse_linetable"),
         ("contracts.code311", "xdis.codetype.code311:decode_position_entry"),
     ],
-    "bounded": [("ground.oracle_diff", "check", {"prop": "C17"}), ("ground.adequacy", "check", {"which": ("lines", "exc")})],
+    "bounded": [("ground.oracle_diff", "check", {"prop": "C17"}), ("ground.adequacy", "check", {"which": ("lines", "exc")}), ("ground.locations", "check", {})],
     "assumptions": [],
 }
 
@@ -264,8 +264,8 @@ _T = {
          "no reference for 1.x-2.6, 3.0-3.5 and PyPy tables: invariants only."),
  "C15": ("xstack_effect is proved equal to CPython's dis.stack_effect for every opcode of the 3.6-3.13 tables and all operands 0 <= oparg < 2**30.",
          "closed forms of CPython's C function selected from a template family by agreement with the interpreters on sampled operands; versions without an interpreter are not covered."),
- "C17": ("_parse_varint and parse_exception_table are proved for all byte strings against the exception-table format (big-endian 6-bit varints, 4 per entry), including termination and StopIteration exactly on truncated input.",
-         "location-table (co_positions/co_lines) walkers: bounded differential only so far."),
+ "C17": ("_parse_varint and parse_exception_table are proved for all byte strings against the exception-table format (big-endian 6-bit varints, 4 per entry), including termination and StopIteration exactly on truncated input; the 3.11+ location-table walkers behind Code311.co_lines()/co_positions() (_scan_varint, _go_to_next_code_byte, parse_linetable, decode_position_entry) are proved against the entry layout of Objects/locations.md (all five forms, multi-byte varints, signed deltas).",
+         "bounded only: the stand-alone location-entry parser parse_location_entries (nested generators and closures, outside pyvc's subset) is compared with co_positions() of CPython 3.11, 3.12 and 3.13 on generated well-formed tables; the exception-table rendering in listings is compared with the oracles' dumps."),
  "C01": ("The pure-Python unmarshaller is proved, for every input byte string, to follow the structure marshal.c defines: r_object dispatches each type code (with FLAG_REF and bytes_for_s) to the matching reader; t_code reads the fields of a code object in the order, width and signedness of each of 19 bytecode-version classes (1.0 ... 3.13) and passes each to the matching field of the portable code object, incl. the 3.11+ localsplus split and the reference slot reserved before the fields; the value readers are those of C10. Value contents and the list/dict readers are compared with the real marshal only by the bounded differential.",
          "sub-objects are abstract (OBJ/END/NREF: modular induction, termination not proved here); format transcribed from marshal.c knowledge in spec/marshal_fmt.py and validated behaviourally against the marshal of 9 interpreters; 2.0 (magic 50823) layout not shipped: no oracle can arbitrate whether 2.0 code objects have free/cell variables; PyPy/Graal layouts not covered; bounded: 3.11+ localsplus with two names."),
  "C10": ("Each value reader of the unmarshaller (int32, int64, long digits, the seven length-prefixed string kinds, unicode, back references, interned-string references, small/large tuples, sets, frozensets) is proved, for all inputs, to read the field widths/signs the format defines, to consume exactly its encoding, to read its children in order with bytes_for_s passed on, and to keep the reference-table discipline (slot index = references recorded before, reserved before the children, filled with the finished object).",
